@@ -30,8 +30,9 @@ LEVEL_TEXT = ('Theorems (Props/C08.v): read(write(f)) presents exactly the conte
               'TEMPERATURE and HEIGHT/PRESSURE (Model/TempHp.v, Proofs/TempHpProofs.v; layered record files over the One3d codec; both Memmap readers hand-modelled incl. the for-loop fall-through, the lazy reshapes and the marker check): C08_temperature_read_write, C08_temperature_rewrite_idempotent, C08_heightpres_read_write, '
               'C08_heightpres_rewrite_idempotent; tie H: constructors TD8 / HD8 (writer output == spec encoding, byte-identical re-write). '
               'WIND (Model/Wind.v, Proofs/WindProofs.v; Memmap reader hand-modelled incl. the RecordFile walk of its __init__, with a three-valued result read / raise / never returns): C08_wind_read_write, C08_wind_rewrite_idempotent; tie H: constructor WD8.')
-LEVEL_NOTE = ('Trusted: Coq kernel+vm_compute, py2coq, harness. Met formats and landuse are held by correspondence and generic record '
-              'framing theorems only. Known findings: single-step met files; 1x1 wind grids; land-use sniffing.')
+LEVEL_NOTE = ('Trusted: Coq kernel+vm_compute, py2coq, harness. Every CAMx format has a hand-modelled Coq reader/writer model tied by the '
+              'correspondence (translated anchors where the source is integer bookkeeping); numpy memmap/reshape rules are modelled, not verified. '
+              'Known findings: single-step layered met files; 1x1 wind grids; land-use sniffing; cloud/rain size ambiguity.')
 TECHNIQUE = 'Coq proof (codec/reader round trip, date arithmetic over translated expressions) + differential correspondence'
 
 
